@@ -17,7 +17,7 @@ RULE = ('a case = one generated config (nested mappings/lists/call arguments, un
         'length >= 2, a reference into a container or call argument, or a bad (dangling/self/cyclic) reference; '
         'distinct = distinct digest of (structure, reference graph, split)')
 ASSUMPTIONS = [
-    'termination is judged on the simulator step clock (traced line events of awesomeyaml code): budget 5000000 + 1380 * L^2 lines per build for a longest chain of L references, more than 10x the largest fault-free build of that size class (a forward chain costs ~115 * L^2 lines because every member re-follows the rest of the chain; L is at most 60, in 4% of the runs 270)',
+    'termination is judged on the simulator step clock (traced line events of awesomeyaml code): budget 5000000 + 1380 * L^2 lines per build for a longest chain of L references, more than 10x the largest fault-free build of that size class (a forward chain costs ~115 * L^2 lines because every member re-follows the rest of the chain; L is at most 60, in 4% of the runs 270, in the thorough tier in 0.03% of the runs 1100 - longer than the recursion limit)',
     'reference targets are structural paths of the merged config; paths that would traverse *through* another reference are not generated (the statement does not define them)',
 ]
 TIERS = {
@@ -121,6 +121,8 @@ def generate(r, tier, index):
     # a long chain c0 -> c1 -> ... -> target
     if r.random() < 0.5:
         L = r.choice([2, 3, 5, 10, 25, 60, 2, 3, 5, 10, 25, 60, 2, 3, 5, 10, 25, 60, 2, 3, 5, 10, 25, 60, 270])
+        if tier == 'thorough' and r.random() < 0.0006:
+            L = 1100      # "chains of any length": longer than the interpreter's recursion limit (tens of seconds per build: thorough tier only)
         tgt = r.choice(targets) if targets else ['k0']
         order = list(range(L))
         for i in range(L):
@@ -511,9 +513,9 @@ def execute(sc):
     elif bad and v['status'] == 'ok':
         res['violations'].append(core.violation('xref.error_expected', f'reference graph has a {bad} reference but the build succeeded', graph=bad))
     elif bad and not v['is_eval_error']:
-        res['violations'].append(core.violation('xref.error_kind', f'{bad} reference reported as {v["exc"]["type"]} (not an EvalError): {v["exc"]["msg"][:300]}', graph=bad, type=v['exc']['type']))
+        res['violations'].append(core.violation('xref.error_kind', f'{bad} reference reported as {v["exc"]["type"]} (not an EvalError): {v["exc"].get("msg", "(recursion limit involved)")[:300]}', graph=bad, type=v['exc']['type']))
     elif not bad and v['status'] != 'ok':
-        res['violations'].append(core.violation('xref.unexpected_error', f'all references resolve but the build failed: {v["exc"]["type"]}: {v["exc"]["msg"][:400]}', type=v['exc']['type']))
+        res['violations'].append(core.violation('xref.unexpected_error', f'all references resolve but the build failed: {v["exc"]["type"]}: {v["exc"].get("msg", "(recursion limit involved)")[:400]}', type=v['exc']['type']))
     elif not bad:
         st['identity_checked'] = v['identity_checked']
         if v['identity_failures']:
